@@ -279,6 +279,7 @@ func blockOnListChange(ctx *cmdContext, keyName string, timeoutNs int64, op func
 		op,
 		func() string { return fmt.Sprintf("key '%s'", keyName) },
 		func() *wakeSignal { return ctx.dsc.ds.enterListBlock(keyName) },
+		func(ws *wakeSignal) { ctx.dsc.ds.reenterListBlock(ws, []string{keyName}) },
 	)
 }
 
@@ -289,6 +290,7 @@ func blockOnListChangeMultiKey(ctx *cmdContext, keyNames []string, timeoutNs int
 		op,
 		func() string { return fmt.Sprintf("keys %s", keyNames) },
 		func() *wakeSignal { return ctx.dsc.ds.enterListMultiBlock(keyNames) },
+		func(ws *wakeSignal) { ctx.dsc.ds.reenterListBlock(ws, keyNames) },
 	)
 }
 
@@ -298,6 +300,7 @@ func blockOnListChangeWorker(
 	op func() (output respValue),
 	keyNameStr func() string,
 	blockFn func() *wakeSignal,
+	reblockFn func(ws *wakeSignal),
 ) (output respValue) {
 
 	// initial non blocking call
@@ -373,6 +376,15 @@ func blockOnListChangeWorker(
 		}
 		// a different client obtained the list element before this client could, so try again
 		verifPoint("retry-failed", ctx.cs.id, 0)
+
+		// the wake-up took this client out of the wait lists: get back in (at the position of the
+		// original registration), and look again, because an element may have arrived in the meantime
+		reblockFn(ws)
+		verifPoint("after-register", ctx.cs.id, ws.id)
+		output = op()
+		if output.data != nil {
+			return
+		}
 	}
 }
 
